@@ -336,7 +336,17 @@ class Case:
         try:
             sess = runeq.make_session(self.orig_model)
         except runeq.RunError:
-            self.admit_reasons["ort-load"] += len(self.feeds)
+            # ORT has no type support (complex tensors): the ONNX reference evaluator alone defines the result,
+            # for the original and for the round-tripped model alike (self.engine == "ref")
+            try:
+                refm = _ref_normalise(self.orig_model)
+                for fd in self.feeds:
+                    res.append((fd, runeq.run_ref(refm, self._feeds_for_original(fd))))
+                self.engine = "ref"
+                self.admit_reasons["ref-only"] += len(res)
+            except Exception:  # noqa: BLE001
+                res = []
+                self.admit_reasons["ort-load"] += len(self.feeds)
             self._admitted = res
             return res
         refm = None
@@ -422,6 +432,23 @@ def _after_export(case, src, opts):
     adm = case.admitted()
     if not adm:
         return dict(kind="skip", symptom="no-admitted-input", detail=dict(case.admit_reasons))
+    if getattr(case, "engine", "ort") == "ref":
+        try:
+            refm = _ref_normalise(run_model)
+        except Exception as e:  # noqa: BLE001
+            return dict(kind="invalid-model", symptom=_normalise(e), detail=str(e)[:400])
+        for fd, exp in adm:
+            names = [i.name for i in run_model.graph.input]
+            feeds = {n: v for n, v in zip(names, case.positional(fd)) if v is not None}
+            try:
+                got = runeq.run_ref(refm, feeds)
+            except Exception as e:  # noqa: BLE001
+                return dict(kind="not-equivalent", symptom="run-fails", detail=str(e)[:300])
+            d = runeq.compare(exp, got)
+            if d:
+                return dict(kind="not-equivalent", symptom="outputs-differ",
+                            detail=dict(diff=d, expected=runeq.describe(exp), got=runeq.describe(got)))
+        return dict(kind="ok", symptom="", detail=len(adm))
     try:
         sess = runeq.make_session(run_model)
     except runeq.RunError as e:
@@ -524,6 +551,8 @@ def _dev_label(case, dev):
             return "initializer-name-needs-cleanup"
         return f"name={new}"
     _, slot, key, place = dev
+    if key.startswith("t:") and _mods()[0].CONST_POOL[key].dtype not in (np.float32, np.int64):
+        return f"const={key}"             # typed constants: one key per element type / payload
     if _has_nonfinite(key):
         return "nonfinite-const"          # placement is irrelevant: initializers are exported as Constant nodes
     if _is_negative(key):
